@@ -313,7 +313,7 @@ def collisions(st):
             st.outcomes["collision:%s:%s" % (backing, "ok" if facts == exp else "differs")] += 1
             if facts != exp:
                 wrong = sorted(k for k in exp if facts.get(k) != exp[k]) if "exception" not in facts else ["exception"]
-                kinds = sorted({k.rstrip("12").replace("_has_own_text", "") for k in wrong})
+                kinds = sorted({k.replace("_has_own_text", "").rstrip("12") for k in wrong})
                 if set(kinds) <= {"code", "source"}:
                     kinds = ["source+code-of-the-other-template"]
                 st.violation("uri-collision:%s" % "+".join(kinds), {"kind": "collision", "backing": backing, "uris": [u1, u2]}, "templates whose URIs differ only in non-word characters keep their own source/code/defs/output", exp, facts)
